@@ -53,6 +53,31 @@ def inventory(units, adts):
                         s0 = C.strip(n["s"])
                         n = {"k": "match", "sadt": adt_, "ln": n.get("ln"), "arms": subs,
                              "s": s0 if s0.get("k") != "mcall" else {"k": "mcall", "m": "unwrap", "recv": n["s"], "a": []}}
+                if n.get("k") == "match" and C.strip(n.get("s") or {}).get("k") == "tup" and all(isinstance(a_["pat"], dict) and a_["pat"].get("k") in ("tuple", "wild", "bind") for a_ in n["arms"]):
+                    # `match (ctx, abi) { (Ctx::A, _) => panic!(..), (Ctx::B, Abi::X) => .. }`: an arm that constrains ONE component (the others `_`) is selected by that
+                    # component's variants -- view the match as the match on that component (arms that also constrain another component become conditional)
+                    elems = C.strip(n["s"])["a"]
+                    for a_ in n["arms"]:
+                        if not C.panic_macro_of(a_["b"]) or a_["pat"].get("k") != "tuple":
+                            continue
+                        subs_ = a_["pat"].get("sub") or []
+                        strict = [i_ for i_, p_ in enumerate(subs_) if isinstance(p_, dict) and p_.get("k") not in ("wild", "bind")]
+                        if len(strict) != 1 or strict[0] >= len(elems):
+                            continue
+                        ci = strict[0]
+                        adt_ = next((x_.get("adt") for x_ in [subs_[ci]] + list((subs_[ci].get("alts") or [])) if isinstance(x_, dict) and x_.get("adt")), None)
+                        if not (adt_ and enum_of(adt_)):
+                            continue
+                        arms_ = []
+                        for b_ in n["arms"]:
+                            if b_["pat"].get("k") != "tuple":
+                                arms_.append({"pat": {"k": "wild"}, "g": b_.get("g"), "b": b_["b"], "ln": b_.get("ln")})
+                                continue
+                            sb = b_["pat"].get("sub") or []
+                            others_free = all(isinstance(p_, dict) and p_.get("k") in ("wild", "bind") for j_, p_ in enumerate(sb) if j_ != ci)
+                            arms_.append({"pat": sb[ci] if ci < len(sb) else {"k": "wild"}, "g": b_.get("g") or (None if others_free else {"k": "lit", "t": "bool", "v": True}), "b": b_["b"], "ln": b_.get("ln")})
+                        n = {"k": "match", "sadt": adt_, "s": elems[ci], "ln": n.get("ln"), "arms": arms_}
+                        break
                 if n.get("k") == "match" and enum_of(n.get("sadt")):
                     mt = n
                 elif n.get("k") == "if":
